@@ -110,7 +110,7 @@ def check_case(names, endian, align, res: JobResult, tier="quick", only_input=No
                             viol("cut:different-value", f"cut at {k} (only padding removed) via {kind}: returned {val}; full={inp.value}", reader, inp, extra={"cut": k})
                     else:
                         failures += 1
-                if k in (0, n // 2, n - 1):
+                if k in (0, n // 2, n - 1) or inp.label == "base":
                     # residue: the same type objects parse the full input again exactly as before
                     again = sc.parse(T, inp.data)
                     res.transitions += 1
